@@ -276,6 +276,28 @@ Proof.
     eapply written_here; eauto.
 Qed.
 
+(* a new key, for any value whose formalisation is known: the item goes to the end *)
+Lemma dprim_add_gen : forall k rv st' p v,
+  rv_ok rv -> is_missing_rv rv = false -> assoc k its = None ->
+  (forall nw st1, formalize q sc st (fst ps) KDict tid fl (snd ps ++ [k]) false rv = (nw, st1) ->
+                  erase nw = v /\ is_missing nw = false /\ roots st1 = roots st) ->
+  dprim q sc st ps k rv = (st', p) ->
+  p = PUpd /\ exists nw, at_is st' ps tid KDict pa fl (its ++ [(k, nw)]) /\ erase nw = v /\ is_missing nw = false /\
+              keeps_other (fst ps) st st' /\ anc_clean st' ps /\ wfs st'.
+Proof.
+  intros k rv st' p v OK NM AB FZ E.
+  pose proof (dprim_wfs _ _ _ _ _ _ _ _ WFS OK E) as W'.
+  unfold dprim in E. unfold at_is in AT. rewrite AT in E. cbn [fst snd] in E. rewrite AB in E.
+  replace (same_obj (Leaf LMissing) rv) with false in E by (symmetry; exact NM).
+  rewrite NM in E.
+  destruct (formalize q sc st (fst ps) KDict tid fl (snd ps ++ [k]) false rv) as [nw st1] eqn:F.
+  destruct (FZ _ _ eq_refl) as (EN & MN & RS).
+  inv E. split; auto. exists nw.
+  replace (set_assoc k nw its) with (its ++ [(k, nw)]) in *.
+  2:{ clear - AB. induction its as [|[k' v'] l IH]; simpl in *; auto. destruct (key_eqb k k'); try discriminate. f_equal; auto. }
+  destruct (written_here st ps tid pa fl its KDict AT ANC st1 (its ++ [(k, nw)]) (Leaf LMissing) RS) as (A1 & K1 & AC1). auto 10.
+Qed.
+
 (* del d[k] (the primitive is called with the MISSING_VALUE marker) *)
 Lemma dprim_del : forall k st' p,
   has_key k its = true -> dprim q sc st ps k (RLeaf LMissing) = (st', p) ->
